@@ -420,3 +420,36 @@ Proof.
   revert H0. generalize oinit. induction ops as [|o ops IH]; intros s Hs; cbn [foldl]; [done|].
   apply IH. by apply ostep_ok.
 Qed.
+
+(** * At most one new content file per digest the object did not already hold *)
+Definition head_paths_of (i : inventory) (d : digest) : list cpath :=
+  filter (λ c : cpath, is_head_cp i c) (paths_of (i_manifest i) d).
+
+Lemma dedup_one_per_digest pre post d :
+  StagedWF pre → dedup_okb pre post = true →
+  (length (filter (λ c : cpath, is_head_cp pre c) (paths_of (i_manifest post) d)) ≤ 1)%nat ∧
+  (committed_copy pre d → filter (λ c : cpath, is_head_cp pre c) (paths_of (i_manifest post) d) = []).
+Proof.
+  intros Hwf Hok. pose proof Hok as Hok'. apply dedup_okb_spec in Hok' as (Hp & Hh & Hsub & Hper).
+  set (l := filter (λ c : cpath, is_head_cp pre c) (paths_of (i_manifest post) d)).
+  assert (Hcases : l = [] ∨ has_nonhead pre d = false ∧ length l = 1%nat).
+  { destruct l as [|c l'] eqn:El; [by left|]. right.
+    assert (Hin : c ∈ l) by (rewrite El; by left).
+    unfold l in Hin. apply elem_of_list_filter in Hin as [Hhd Hin]. apply elem_of_paths_of in Hin.
+    pose proof (Hsub _ _ Hin) as Hpre.
+    unfold is_head_cp in Hhd. apply Is_true_eq_true, N.eqb_eq in Hhd.
+    destruct (has_nonhead pre d) eqn:Hnh.
+    - destruct (Hper _ _ Hpre) as (_ & Hnone & _). rewrite (Hnone Hhd Hnh) in Hin. done.
+    - split; [done|].
+      (* the per-entry condition of dedup_okb gives exactly one head path *)
+      unfold dedup_okb in Hok. rewrite !andb_true_iff, !forallb_elem_of in Hok.
+      destruct Hok as [_ Hall].
+      specialize (Hall (c, d) (proj2 (elem_of_map_to_list _ _ _) Hpre)). cbn [fst snd] in Hall.
+      change (is_head_cp pre c) with (fst c =? head pre)%N in Hall.
+      apply N.eqb_eq in Hhd. rewrite Hhd, Hnh in Hall. cbn [negb] in Hall.
+      apply bool_decide_eq_true in Hall. fold l in Hall. by rewrite El in Hall. }
+  split.
+  - destruct Hcases as [->|[_ ->]]; cbn; lia.
+  - intros Hcc. apply has_nonhead_committed in Hcc; [|done].
+    destruct Hcases as [E|[Hn _]]; [done|congruence].
+Qed.
